@@ -244,6 +244,22 @@ def wrap(owner, name, rec, post=None, pre=None, label=None):
         setattr(owner, name, new)
         if isinstance(owner, types.ModuleType):
             _rebind_aliases(raw, new)
+    elif callable(raw):
+        # functools.lru_cache objects, partials, builtins ...: wrap generically
+        def generic(*a, **k):
+            return att.call(raw, a, k)
+
+        generic.__vmon_orig__ = raw
+        generic.__name__ = getattr(raw, "__name__", name)
+        generic.__qualname__ = getattr(raw, "__qualname__", name)
+        generic.__doc__ = getattr(raw, "__doc__", None)
+        for extra in ("cache_clear", "cache_info", "__wrapped__"):
+            if hasattr(raw, extra):
+                setattr(generic, extra, getattr(raw, extra))
+        new = generic
+        setattr(owner, name, new)
+        if isinstance(owner, types.ModuleType):
+            _rebind_aliases(raw, new)
     else:
         raise TypeError(f"cannot wrap {label}: {type(raw)}")
     return att
@@ -279,7 +295,12 @@ class Reach:
             f = f.__func__
         while hasattr(f, "__vmon_orig__"):
             f = f.__vmon_orig__
-        f = getattr(f, "__wrapped__", f) if not hasattr(f, "__code__") else f
+        for _ in range(5):
+            if hasattr(f, "__code__"):
+                break
+            f = getattr(f, "__wrapped__", None) or getattr(f, "func", None) or f
+        if not hasattr(f, "__code__"):
+            return  # nothing to trace (builtin / C callable): reach simply has no entry
         self._collect(f.__code__, qual or f.__qualname__)
 
     def start(self):
